@@ -17,7 +17,7 @@ out = "/tmp/mutout/confirm.json"
 if os.path.exists(out):
     res = json.load(open(out))
 only = sys.argv[1:]
-for d in sorted(glob.glob("/tmp/mutout/C??/[AB]") + glob.glob("/tmp/mutout/C??r2/[AB]")):
+for d in sorted(glob.glob("/tmp/mutout/C??/[AB]") + glob.glob("/tmp/mutout/C??r2/[AB]") + glob.glob("/tmp/mutout/C??r3/[AB]")):
     name = d.split("/")[-2] + "-" + d.split("/")[-1]
     if only and name not in only: continue
     if name in res and not only: continue
